@@ -501,6 +501,86 @@ def job_pda(job, states, eps, seed, nt=7):
     return job.solve()
 
 
+# ------------------------------------------------------------------------------------------------ TM (symbolic)
+def job_tm(job, blank, tstep=3):
+    """symbolic TM description: working state s, accept t, reject r, tape symbols a and the blank; each of the two table
+    entries absent or one of a sub-family of targets; declarations (states, tape_symbols, input_symbols, blank) present or
+    omitted; block first / last; blank '_' or the box character (default rule: declared, else the box if it occurs, else _)"""
+    from gambatools.tm_algorithms import parse_tm
+    from .oracles import field, dict_items
+    job.functions('tm_algorithms', ['parse_tm', 'TMBuilder', 'automaton_to_tm'])
+    job.functions('automaton_algorithms', ['AutomatonParser', 'AutomatonBuilder'])
+    job.functions('tm', ['TM'])
+    d = E.dag
+    c.set_exhaustive(14, fold=False)
+    states, gamma = ['s', 't', 'r'], ['a', blank]
+    targets = [(q, b, dr) for q in states for b in gamma for dr in 'LR']
+    entries = {}
+    for i, a in enumerate(gamma):
+        pres = E.fresh('e_s_%s' % a)
+        tg = [t for j, t in enumerate(targets) if (j + i) % tstep == 0]
+        val = c.choice(tg, 't_s_%s' % a)
+        entries[('s', a)] = {t: d.and_(pres, g) for t, g in c.alt_map(val).items()}
+    lay = Layout()
+    tape_decl, blank_decl = E.fresh('lay_tape'), E.fresh('lay_blank')
+    dec = lambda mv: {'blank': blank, 'delta': [[p, a, *t] for (p, a), alts in entries.items() for t, g in alts.items() if mv(g)],
+                      'layout': dict(lay.json(mv), tape_symbols=bool(mv(tape_decl)), blank_decl=bool(mv(blank_decl)))}
+    job.inputs['T'] = None
+    job.decoders['T'] = dec
+    block = [(lay.states_decl, 'states s t r\n'), (TRUE, 'initial s\n'), (TRUE, 'accept t\n'), (TRUE, 'reject r\n'),
+             (lay.symbols_decl, 'input_symbols a\n'), (tape_decl, 'tape_symbols a %s\n' % blank), (blank_decl, 'blank %s\n' % blank)]
+    trans = []
+    for q in states:
+        its = [('%s%s,%s' % (a, b, dr), g) for (p, a), alts in entries.items() for (q1, b, dr), g in alts.items() if q1 == q]
+        if its:
+            trans.append((d.and_(lay.multi, d.any_(g for _, g in its)), subsets_line('s %s' % q, its)))
+            trans += [(d.and_(lay.multi ^ 1, g), 's %s %s\n' % (q, lab)) for lab, g in its]
+    pieces = [(d.and_(lay.block_first, g), s_) for g, s_ in block] + [(lay.comments, '% comment\n')] + trans + \
+             [(d.and_(lay.block_first ^ 1, g), s_) for g, s_ in block]
+    rope = L.GStr([(g, s_) for g, s_ in pieces if g != FALSE])
+    rp = ('tm_text', {'text': lambda mv: rope_text(rope, mv), 'expect': 'same'})
+    res, failed_f, kinds = attempt(parse_tm, rope)
+    job.lifted()
+    failed = failed_f()
+    # expectations by the documented defaults
+    uses_blank_char = d.any_(g for (p, a), alts in entries.items() for (q, b, dr), g in alts.items() if blank in (a, b))
+    is_blank = TRUE if blank == '_' else d.or_(blank_decl, uses_blank_char)
+    blank_exp = {blank: is_blank}
+    if blank != '_':
+        blank_exp['_'] = is_blank ^ 1
+    used = {x: d.any_(g for (p, a), alts in entries.items() for (q, b, dr), g in alts.items() if x in (a, b)) for x in gamma}
+    tape = {x: d.or_(tape_decl, d.and_(tape_decl ^ 1, used[x])) for x in gamma}            # before the blank is added
+    Gam_exp = {x: d.or_(tape.get(x, FALSE), blank_exp.get(x, FALSE)) for x in set(gamma) | {'_'}}
+    Sig_exp = {x: d.or_(d.and_(lay.symbols_decl, TRUE if x == 'a' else FALSE), d.all_([lay.symbols_decl ^ 1, tape.get(x, FALSE), blank_exp.get(x, FALSE) ^ 1]))
+               for x in set(gamma) | {'_'}}
+    # well-formed region: a declared input alphabet must lie inside the (declared or derived) tape alphabet
+    E.assumptions.append(d.or_(lay.symbols_decl ^ 1, tape['a']))
+    job.oblige('well-formed TM description (any layout) is accepted', failed, replay=rp)
+    if res is not None:
+        bad = []
+        m = lambda name: {str(k_): g for k_, g in L._setview(field(res, name)).m.items()}
+        Q2, S2, G2 = m('Q'), m('Sigma'), m('Gamma')
+        bad += [d.iff(Q2.get(x, FALSE), TRUE if x in states else FALSE) ^ 1 for x in set(states) | set(Q2)]
+        bad += [d.iff(S2.get(x, FALSE), Sig_exp.get(x, FALSE)) ^ 1 for x in set(Sig_exp) | set(S2)]
+        bad += [d.iff(G2.get(x, FALSE), Gam_exp.get(x, FALSE)) ^ 1 for x in set(Gam_exp) | set(G2)]
+        for name, exp in (('q0', 's'), ('q_accept', 't'), ('q_reject', 'r')):
+            bad += [d.and_(g, TRUE if str(v) != exp else FALSE) for g, v in E.alts(field(res, name))]
+        b2 = {str(v): g for g, v in E.alts(field(res, 'blank'))}
+        bad += [d.iff(b2.get(x, FALSE), blank_exp.get(x, FALSE)) ^ 1 for x in set(b2) | set(blank_exp)]
+        after = {}
+        for key, (pres, val) in dict_items(field(res, 'delta')).items():
+            for g, tgt in E.inst(val):
+                if isinstance(tgt, tuple):
+                    k_ = (tuple(map(str, key)), tuple(map(str, tgt)))
+                    after[k_] = d.or_(after.get(k_, FALSE), d.and_(pres, g))
+        before = {((p, a), t): g for (p, a), alts in entries.items() for t, g in alts.items()}
+        bad += [d.iff(before.get(k_, FALSE), after.get(k_, FALSE)) ^ 1 for k_ in set(before) | set(after)]
+        job.oblige('parse_tm returns exactly the described machine (states, alphabets, blank, table, initial / accept / reject states)',
+                   d.and_(failed ^ 1, d.any_(bad)), replay=rp)
+    job.failures_as_obligations(replay=rp)
+    return job.solve()
+
+
 # ------------------------------------------------------------------------------------------------ PDA / TM labels
 PDA_TEXT = ['initial p\n', 'final q\n', 'p p a,_x\n', 'p q _,__ b,x_\n', 'q q b,x_\n']
 TM_TEXT = ['initial s\n', 'accept t\n', 'reject r\n', 's s aa,R __,L\n', 's t b_,R\n']
@@ -565,6 +645,9 @@ def jobs(tier):
     add('pda_pq_unicode_s3', job_pda, states=['p', 'q'], eps='ε', seed=3, timeout=tmo)
     add('pda_keywordlike_states_s4', job_pda, states=['accept', 'blank'], eps='_', seed=4, timeout=tmo)
     add('pda_keywordlike_states_s5', job_pda, states=['reject', 'tape_symbols'], eps='ε', seed=5, timeout=tmo)
+    add('tm_us', job_tm, blank='_', timeout=tmo)
+    add('tm_box', job_tm, blank='□', timeout=tmo)
+    add('tm_box_t2', job_tm, blank='□', tstep=2, timeout=tmo)
     add('pda_labels', job_labels, kind='pda', timeout=tmo)
     add('tm_labels', job_labels, kind='tm', timeout=tmo)
     if not q:
@@ -635,4 +718,13 @@ def _replay_pda_text(rp):
     return got != exp, {'returned': got, 'described': exp, 'text': rp['text']}
 
 
-REPLAY = {'pda_text': _replay_pda_text, 'dfa_text': _replay_dfa_text, 'nfa_text': _replay_nfa_text, 'label_text': _replay_label_text}
+def _replay_tm_text(rp):
+    from gambatools.tm_algorithms import parse_tm
+    r, obj = _replay_text(parse_tm, rp, lambda o: nat.summary_of('tm', o))
+    if r is not None:
+        return r, obj
+    got, exp = nat.summary_of('tm', obj), nat.described_tm(rp['text'])
+    return got != exp, {'returned': got, 'described': exp, 'text': rp['text']}
+
+
+REPLAY = {'tm_text': _replay_tm_text, 'pda_text': _replay_pda_text, 'dfa_text': _replay_dfa_text, 'nfa_text': _replay_nfa_text, 'label_text': _replay_label_text}
